@@ -101,7 +101,8 @@ def datetime_from_uuid1(uuid_arg):
 
     :param uuid_arg: a version 1 :class:`~uuid.UUID`
     """
-    return datetime_from_timestamp(unix_time_from_uuid1(uuid_arg))
+    # whole microseconds from the integer 100-ns count: float seconds lose the microsecond for far-future instants
+    return DATETIME_EPOC + datetime.timedelta(microseconds=(uuid_arg.time - 0x01B21DD213814000) // 10)
 
 
 def min_uuid_from_time(timestamp):
